@@ -903,6 +903,14 @@ func deepStage(r *lib.RNG, scratch string) {
 			jobs = append(jobs, job{in, cfgs[1]})
 		}
 	}
+	// O45: about 1 MB of one opening token (or of one chain) exhausted the goroutine stack in the recursive-descent
+	// parser / the compiler's tree walk: a fatal error no recover() can catch. Every shape, bare; two as module bodies.
+	for i, in := range megaInputs(flags.Thorough()) {
+		jobs = append(jobs, job{in, cfgs[0]})
+		if i < 2 {
+			jobs = append(jobs, job{in, cfgs[1]})
+		}
+	}
 	outs := make([][]Finding, len(jobs))
 	var wg sync.WaitGroup
 	sem := make(chan struct{}, 4)
@@ -932,7 +940,7 @@ func deepStage(r *lib.RNG, scratch string) {
 			}
 			res.Violate(lib.Violation{Signature: f.Sig, Stream: "deep:" + jobs[i].cfg.Kind, Input: replayInput{encSrc(src), jobs[i].cfg, "deep-nesting"},
 				Observed: clip(f.Observed, 600), Expected: "a result or an error value",
-				Oracle: "nesting depth up to 5000 must not panic, overflow the stack or hang (> 40 s)"})
+				Oracle: "nesting depth up to 5000 (and the 1 MB nesting shapes of O45) must not panic, overflow the stack or hang (> 40 s)"})
 		}
 	}
 }
